@@ -12,7 +12,11 @@ SPEC = {
               extra_args=["c07"],
               rule="each case is one scenario: a telemetry directory with count files written by the real counter "
                    "library (1-3 program builds x 1-3 weeks; active and expired; without counters; truncated, "
-                   "damaged, random and empty files; same-week files with different begins; in 55 % of the scenarios an "
+                   "damaged, random and empty files; in 22 % of the scenarios an expired file with a VALID header and metadata "
+                   "whose hash chains leave the file (260 long-named counters so that it grows beyond its first page, then "
+                   "truncated to 16 KiB; or the last record of a chain linked past the end) - unparseable by an independent "
+                   "structural check of the v1 layout in the harness, whatever the parser under test says; "
+                   "same-week files with different begins; in 55 % of the scenarios an "
                    "IDENTITY GROUP: 2-4 files of one report week whose program identities differ from a base identity "
                    "in exactly ONE of the five fields Program (another last path element, or the same one under another "
                    "directory: count-file names that differ in the date only) / Version / GoVersion (set through the library's build "
